@@ -28,7 +28,7 @@ KINDS = ['exact1d', 'exact1d', 'asym1d', 'asym1d', 'paths', 'identities', 'funct
 
 def cases(tier, seed):
     variant = os.environ.get('VERIF_VARIANT', 'plain')
-    n = {'quick': 400, 'thorough': 8000}[tier]
+    n = {'quick': 400, 'thorough': 16000}[tier]
     if variant != 'plain': n = 240
     for i in range(n):
         yield {'kind': KINDS[i % len(KINDS)], 'seed': seed, 'idx': i}
@@ -38,6 +38,7 @@ def _exact_biform(kvA, pA, dA, kvB, pB, dB, mesh, wpoly=None):
     from refmodels import bsp, exactint
     nA = len(kvA) - pA - 1; nB = len(kvB) - pB - 1
     M = [[Fraction(0)] * nA for _ in range(nB)]
+    Mabs = [[Fraction(0)] * nA for _ in range(nB)]       # sum of the magnitudes of the terms: the scale rounding errors are relative to
     wdeg = 0 if wpoly is None else len(wpoly) - 1
     deg = max(pA - dA, 0) + max(pB - dB, 0) + wdeg
     xs, ws = exactint.weights01(deg)
@@ -54,7 +55,8 @@ def _exact_biform(kvA, pA, dA, kvB, pB, dB, mesh, wpoly=None):
                     va = DA[dA][ii]
                     if va != 0:
                         M[sB - pB + jj][sA - pA + ii] += h * w * wv * va * vb
-    return np.array([[float(v) for v in row] for row in M]), np.array([[float(abs(v)) for v in row] for row in M])
+                        Mabs[sB - pB + jj][sA - pA + ii] += abs(h * w * wv * va * vb)
+    return np.array([[float(v) for v in row] for row in M]), np.array([[float(v) for v in row] for row in Mabs])
 
 def run_case(rec, case):
     {'exact1d': _exact1d, 'asym1d': _asym1d, 'paths': _paths, 'identities': _identities, 'functionals': _functionals, 'fast': _fast}[case['kind']](rec, case)
